@@ -201,6 +201,18 @@ func (s *V2Session) buildAndSend(ctx context.Context, c ipmi.Command) error {
 		if err := types.InnermostEquals(ipmi.LayerTypeMessage); err != nil {
 			return err
 		}
+		// the session layer only validates the signature of packets that
+		// claim to have one, so a packet with the authenticated flag clear
+		// has not been checked at all; it, and anything addressed to another
+		// session, is treated like any other undecodable packet
+		if s.integrityAlgorithm != nil && !s.v2SessionLayer.Authenticated {
+			return fmt.Errorf("received an unauthenticated packet in a " +
+				"session negotiated with an integrity algorithm")
+		}
+		if s.v2SessionLayer.ID != s.LocalID {
+			return fmt.Errorf("received a packet for session %#x, ours is %#x",
+				s.v2SessionLayer.ID, s.LocalID)
+		}
 		code := s.messageLayer.CompletionCode
 		// must increment here, otherwise we'll miss temporary codes at the
 		// higher levels
